@@ -63,7 +63,7 @@ drawn relative to the EE resources (equal, more specific, wider, other, other fa
 model; manifests go through Manifest::validate_at (sid and all other tampers). built: SignedObjectBuilder::finalize with \
 the same content-type size classes; oracle = harness' own CMS verifier (DER SET OF re-encoding + RSA via aws-lc-rs) accepts \
 and the library accepts iff in window and untampered. non-trivial = signed attributes >= 128 bytes, or typed content with \
->= 2 prefixes / providers / entries, or any tamper, or a digest attribute over part of the segmented content.";
+>= 2 prefixes / providers / entries, or any tamper, or a digest attribute over part of the segmented content. EE certificates of independent-writer objects come in foreign dress (der::Dress; acceptance demanded for extension order, CPS qualifier, further CRL-DP / SIA URIs, AS one-element ranges; optional for unknown extensions / access methods, missing NULL, non-canonical resource lists); ROAs are also written with the IPv6 family first; trust anchors 5, 6, 7 hold no IPv4 / no IPv6 / no IP space (inherit validates to nothing); digest faults include values of the right length differing from the real digest in two octets whose differences cancel under XOR, or with two octets exchanged.";
 
 pub const SIG_F12: &str = "sigattrs-long-form-length";
 pub const SIG_CRL_CERT: &str = "c02:crl-callback-wrong-cert";
